@@ -11,6 +11,8 @@ import (
 	"go/token"
 	"go/types"
 	"math/big"
+	"regexp"
+	"sort"
 	"strconv"
 	"strings"
 )
@@ -868,7 +870,7 @@ func (e *Engine) evalCall(env *Env, c *ast.CallExpr) TV {
 		}()
 		rng := and(e.idxLe(lo, q), e.idxLt(q, hi))
 		if fname == "forall" {
-			return TV{V: &Sc{fmt.Sprintf("(forall ((%s %s)) %s)", q, srt, implies(rng, body))}, T: boolT}
+			return TV{V: &Sc{fmt.Sprintf("(forall ((%s %s)) %s)", q, srt, withPatterns(implies(rng, body), q))}, T: boolT}
 		}
 		ex := fmt.Sprintf("(exists ((%s %s)) %s)", q, srt, and(rng, body))
 		// candidate witnesses: each instance implies the existential, so proving
@@ -1302,4 +1304,108 @@ func (e *Engine) unfoldSpec(env *Env, call *ast.CallExpr) string {
 	}
 	body := e.materialize(e.eval(benv, sf.Body), rt)
 	return fmt.Sprintf("(= %s %s)", e.flatten(rt, lhs.V)[0], e.flatten(rt, body.V)[0])
+}
+
+// withPatterns attaches explicit triggers to a quantifier body: every array
+// read or stream/string access whose index mentions the bound variable is an
+// alternative pattern. Without them the solvers pick triggers through the
+// arithmetic of the index and instantiate erratically.
+func withPatterns(body, q string) string {
+	pats := findPatterns(body, q)
+	if len(pats) == 0 {
+		return body
+	}
+	var b strings.Builder
+	b.WriteString("(! ")
+	b.WriteString(body)
+	for _, p := range pats {
+		b.WriteString(" :pattern (")
+		b.WriteString(p)
+		b.WriteString(")")
+	}
+	b.WriteString(")")
+	return b.String()
+}
+
+func findPatterns(body, q string) []string {
+	var out []string
+	seen := map[string]bool{}
+	heads := []string{"(select ", "(strat ", "(instream "}
+	for i := 0; i < len(body); i++ {
+		for _, h := range heads {
+			if !strings.HasPrefix(body[i:], h) {
+				continue
+			}
+			// balanced term starting at i
+			d := 0
+			j := i
+			for ; j < len(body); j++ {
+				if body[j] == '(' {
+					d++
+				} else if body[j] == ')' {
+					d--
+					if d == 0 {
+						break
+					}
+				}
+			}
+			if j >= len(body) {
+				continue
+			}
+			t := body[i : j+1]
+			if !containsToken(t, q) || strings.Contains(t, "(forall ") || strings.Contains(t, "(exists ") || strings.Contains(t, "(ite ") || mentionsOtherBound(t, q) {
+				continue
+			}
+			// prefer the innermost access: skip if an inner access with q exists that is a proper subterm and this one only wraps it as the array argument
+			if seen[t] {
+				continue
+			}
+			seen[t] = true
+			out = append(out, t)
+		}
+	}
+	// keep the smallest few (inner reads are better triggers than reads of reads)
+	sort.Slice(out, func(a, b int) bool { return len(out[a]) < len(out[b]) })
+	var keep []string
+	for _, t := range out {
+		sub := false
+		for _, k := range keep {
+			if strings.Contains(t, k) {
+				sub = true // t contains an already chosen smaller pattern
+			}
+		}
+		if !sub {
+			keep = append(keep, t)
+		}
+		if len(keep) >= 4 {
+			break
+		}
+	}
+	return keep
+}
+
+func containsToken(s, tok string) bool {
+	for i := 0; i+len(tok) <= len(s); i++ {
+		if s[i:i+len(tok)] == tok {
+			before := i == 0 || s[i-1] == ' ' || s[i-1] == '('
+			after := i+len(tok) == len(s) || s[i+len(tok)] == ' ' || s[i+len(tok)] == ')'
+			if before && after {
+				return true
+			}
+		}
+	}
+	return false
+}
+
+var boundVarRe = regexp.MustCompile(`q_[A-Za-z0-9_]*![0-9]+`)
+
+// mentionsOtherBound reports whether t mentions a bound variable other than q
+// (such a term cannot be a pattern of q's quantifier).
+func mentionsOtherBound(t, q string) bool {
+	for _, m := range boundVarRe.FindAllString(t, -1) {
+		if m != q {
+			return true
+		}
+	}
+	return false
 }
